@@ -679,7 +679,34 @@ def op_spec(draw, paths, has_bo):
 
 
 @st.composite
+def wipeout_spec(draw):
+    """a levered sub-strategy whose value lands on exactly zero while it still holds its position (margin wiped out by the price path,
+    all amounts exact in binary floating point): its children's weights are zero then, and everything else keeps reconciling"""
+    ds = draw(gen.dates(3, 6, kinds=("bday", "daily")))
+    n = len(ds)
+    k, p0 = draw(st.sampled_from([(2, 16.0), (2, 100.0), (4, 16.0), (4, 64.0), (4, 100.0)]))
+    p1 = p0 * (1.0 - 1.0 / k)
+    drop = draw(st.integers(1, n - 1))
+    pa = [p0] * drop + [p1] * (n - drop)
+    pb = draw(gen.price_path(n))
+    f = draw(st.sampled_from([0.125, 0.25]))
+    tree = {"name": "root", "kind": "StrategyBase", "children": [{"name": "s1", "kind": "StrategyBase", "children": ["a", "b"]}, "b"]}
+    spec = {"dates": ds, "prices": {"a": pa, "b": pb}, "tree": tree, "integer": draw(st.booleans()), "capital": 1e6, "fee": {"kind": "none"}}
+    paths = strategy_paths(tree)
+    ops = [["alloc_child", "root", "s1", f], ["transact", "root>s1", "a", k * f, None]]
+    if draw(st.booleans()):
+        ops.append(["alloc_child", "root", "b", 0.1])
+    ops += [["next"]] * drop
+    tail = draw(st.lists(op_spec(paths, False), min_size=1, max_size=8))
+    spec["ops"] = ops + tail
+    spec["wipeout"] = True
+    return spec
+
+
+@st.composite
 def history_spec(draw, min_ops=3, max_ops=25, max_dates=8, costs=True, allow_mult=True):
+    if draw(st.integers(0, 11)) == 0:
+        return draw(wipeout_spec())
     ds = draw(gen.dates(2, max_dates, kinds=("bday", "daily", "mixed", "intraday")))
     n = len(ds)
     nt = draw(st.integers(1, 4))
@@ -747,6 +774,8 @@ def history_labels(spec, run):
         labs.append("fee")
     if spec.get("fee_scope") == "children":
         labs.append("fee_installed_before_composition")
+    if spec.get("wipeout"):
+        labs.append("substrategy_value_exactly_zero")
     if spec.get("bidoffer"):
         labs.append("spread")
     if spec["integer"]:
